@@ -96,9 +96,12 @@ def activeLookups (p : Program) (tag : String) : List String :=
 
 def addQ2 (a b : Q × Q) : Q × Q := (a.1 + b.1, a.2 + b.2)
 
-/-- (xAdvance, xPlacement) adjustment of `g1` when followed by `g2` in a run of script tag `tag` -/
-def applyKern (p : Program) (tag g1 g2 : String) : Q × Q :=
-  ((p.lookups.filter (fun l => (activeLookups p tag).contains l.name)).map (·.apply g1 g2)).foldl addQ2 (0, 0)
+/-- the lookups with the given names, applied in LookupList (= emission) order, each once; their adjustments add -/
+def applyNames (p : Program) (names : List String) (g1 g2 : String) : Q × Q :=
+  ((p.lookups.filter (fun l => names.contains l.name)).map (·.apply g1 g2)).foldl addQ2 (0, 0)
+
+/-- (xAdvance, xPlacement) adjustment of `g1` when followed by `g2` in a run of script tag `tag`, default language -/
+def applyKern (p : Program) (tag g1 g2 : String) : Q × Q := applyNames p (activeLookups p tag) g1 g2
 
 /-- the same in a font whose OTHER (hand-written) positioning features put the script tags `other` into the ScriptList: a
     shaper then uses that script's own language system - which holds no kern/dist unless the writer registered some - and
@@ -106,6 +109,38 @@ def applyKern (p : Program) (tag g1 g2 : String) : Q × Q :=
 def applyKernIn (other : List String) (p : Program) (tag g1 g2 : String) : Q × Q :=
   if other.contains tag && ((p.kern ++ p.dist).filter (fun r => r.lookups.any p.built && r.script == tag)).isEmpty
   then (0, 0) else applyKern p tag g1 g2
+
+/-! ### languages
+
+    A shaper works with one LangSys record: that of (script tag, language) if the script has one for the language, else the
+    script's default language system; a script tag that is not in the ScriptList falls back to `DFLT`.  What is in the
+    ScriptList is decided by ALL positioning features of the font: `Declared` lists the script tags and the (tag, language)
+    LangSys records that other (hand-written) features create and that hold no generated kern/dist feature. -/
+
+structure Declared where
+  tags : List String := []
+  langSys : List (String × String) := []
+
+/-- the registrations that make it into the compiled font (those referencing a built lookup) -/
+def Program.regsBuilt (p : Program) : List Reg := (p.kern ++ p.dist).filter (fun r => r.lookups.any p.built)
+
+/-- the lookups referenced under script tag `t` (which has registrations) for language `lang` -/
+def langLookups (d : Declared) (p : Program) (t lang : String) : List String :=
+  let own := p.regsBuilt.filter (fun r => r.script == t)
+  let withLang := own.filter (fun r => r.languages.contains lang)
+  if !withLang.isEmpty then withLang.flatMap (·.lookups)
+  else if d.langSys.contains (t, lang) then []       -- the LangSys exists through another feature, without kerning
+  else (own.filter (fun r => r.languages.contains "dflt")).flatMap (·.lookups)    -- undeclared language: default language system
+
+def activeLookupsLang (d : Declared) (p : Program) (tag lang : String) : List String :=
+  if (p.regsBuilt.filter (fun r => r.script == tag)).isEmpty then
+    (if d.tags.contains tag then [] else langLookups d p "DFLT" lang)
+  else langLookups d p tag lang
+
+/-- (xAdvance, xPlacement) adjustment of `g1` when followed by `g2` in a run of script tag `tag` and language `lang`, in a
+    font whose other features declare `d` -/
+def applyKernLang (d : Declared) (p : Program) (tag lang g1 g2 : String) : Q × Q :=
+  applyNames p (activeLookupsLang d p tag lang) g1 g2
 
 /-! ### the hypotheses of the end-to-end theorem `C05_end_to_end` (Props/C05Apply.lean), as decidable predicates on the inputs -/
 
@@ -159,7 +194,17 @@ def ctxOK (c : Ctx) (gs : List String) : Bool :=
   gs.all (fun g => (c.resolved g).all (fun s => (s == COMMON || c.dir s != "Auto") &&
     (c.resolved g).all (fun s' => c.dir s == c.dir s')))
 
-/-- distinct lookups get distinct names (`kern_<scripts>[_marks]`; true for four-letter script codes) -/
+/-- the shape of an ISO-15924 script code: one upper-case letter and three lower-case letters (`Latn`, `Arab`, `Zyyy` ...) -/
+def isoCode (s : String) : Bool :=
+  match s.toList with
+  | [a, b, c, d] => a.isUpper && b.isLower && c.isLower && d.isLower
+  | _ => false
+
+/-- every script of every glyph of the font is named by an ISO-15924-shaped code (what `fontTools.unicodedata` returns) -/
+def scriptsOK (c : Ctx) (gs : List String) : Bool := gs.all (fun g => (c.resolved g).all isoCode)
+
+/-- distinct lookups get distinct names (`kern_<scripts>[_marks]`); a consequence of `wfKern` and `scriptsOK`
+    (`namesOK_of_wf`), no longer a hypothesis -/
 def namesOK (c : Ctx) (pairs : List KPair) (marks : Option (List String)) (ignoreMarks : Bool) : Bool :=
   decide ((pairLists pairs marks ignoreMarks).flatMap (fun l => (splitKerning c l.1).map (fun e => lookupName e.1 l.2.2))).Nodup
 
@@ -175,8 +220,16 @@ def e2eHyp (c : Ctx) (r : RegCtx) (gs : List String) (groups : List (String × L
   wfKern gs groups kerning && ctxOK c gs && gs.contains g1 && gs.contains g2 &&
   !DFLT_SCRIPTS.contains s && ((alookup s r.otTags).getD []).contains tag &&
   c.inScript s g1 && c.inScript s g2 && featOn c r todoKern todoDist s g1 g2 &&
-  namesOK c (getKerningPairs gs (getKerningGroups gs groups) q kerning) marks ignoreMarks &&
+  scriptsOK c gs &&
   cellClean c gs groups kerning q marks ignoreMarks s g1 g2
+
+/-- the extra hypotheses of `C05_end_to_end_lang`: the language is one the feature file declares for the tag (`dflt` always is),
+    and — only when neither glyph is a letter of the script, so that the Common lookup must be reached — other features do not
+    put the tag into the ScriptList without kerning, nor a `DFLT` LangSys for the language that the writer does not know of -/
+def langHyp (d : Declared) (c : Ctx) (r : RegCtx) (s tag lang g1 g2 : String) : Bool :=
+  (langsOf r tag).contains lang &&
+  ((c.resolved g1).contains s || (c.resolved g2).contains s ||
+    (!d.tags.contains tag && (!d.langSys.contains ("DFLT", lang) || (langsOf r "DFLT").contains lang)))
 
 /-- what `C05_end_to_end` says `applyKern` returns: the rounded UFO value as advance, and as placement in a right-to-left script -/
 def e2eExpected (c : Ctx) (groups : List (String × List String)) (kerning : List (String × String × Q)) (q : Q)
